@@ -23,34 +23,66 @@ namespace Ferrous.PubSub
 
 abbrev ConnId := Nat
 
-/-! ## Glob matcher -/
+/-! ## Glob matcher
 
-/-- What `match pattern[p_idx] { … }` does with the channel byte `c` (pubsub.rs:378-408). -/
+`pubsub::pattern_matches` is one call of the server's glob matcher
+`storage::engine::pattern_matches` (KEYS, SCAN MATCH, PSUBSCRIBE all use it): a star-backtracking
+loop with the arms `?`, `*`, `[`…`]`, `\x`, anything else.  `?` = 63, `*` = 42, `[` = 91,
+`\` = 92, `]` = 93, `^` = 94, `-` = 45. -/
+
+/-- What `match pattern_chars[p_idx] { … }` does with the text byte `c` (engine.rs `pattern_matches`). -/
 inductive GStep where
-  /-- `?`, an escaped byte or a literal byte matched `c`: continue with the rest of the pattern. -/
+  /-- `?`, a class, an escaped byte or a literal byte matched `c`: continue with the rest of the pattern. -/
   | advance (p' : Bytes)
   /-- `*`: remember the position, continue with the rest of the pattern on the same byte. -/
   | star (p' : Bytes)
   /-- fall through to the back-tracking code. -/
   | mismatch
 
-/-- `?` = 63, `*` = 42, `\` = 92.  A trailing `\` is an ordinary byte (guard `p_idx + 1 < len`). -/
+/-- The `while i < pattern_chars.len()` walk over the members of a class, `q` = `pattern[i..]`,
+    `m` = `matched` so far; returns `matched` and `pattern[i..]` after the class.
+    Member by member, as Redis's `stringmatchlen`: `\x` is the member `x`; `]` ends the class;
+    `a-b` (three bytes, whatever `b` is, also `]`) is the range between the two in either order;
+    a class without `]` runs to the end of the pattern. -/
+def isRange : Bytes → Bool
+  | d :: _ :: _ => d == 45
+  | _ => false
+
+def classGo (c : Nat) : Bytes → Bool → Bool × Bytes
+  | [], m => (m, [])
+  | a :: q, m =>
+    if a = 92 then
+      match q with
+      | x :: q' => classGo c q' (m || x == c)
+      | [] => (m || 92 == c, [])
+    else if a = 93 then (m, q)
+    else if isRange q then          -- `i + 2 < len && pattern[i + 1] == b'-'`
+      match q with
+      | _ :: b :: q' => classGo c q' (m || (decide (min a b ≤ c) && decide (c ≤ max a b)))
+      | _ => (m, [])                -- not reached
+    else classGo c q (m || a == c)
+
+/-- A trailing `\` is an ordinary byte (guard `p_idx + 1 < len`). -/
 def gstep (p : Bytes) (c : Nat) : GStep :=
   match p with
   | [] => .mismatch
   | a :: p' =>
     if a = 63 then .advance p'
     else if a = 42 then .star p'
+    else if a = 91 then
+      let negate := p'.head? == some 94
+      let r := classGo c (if negate then p'.tail else p') false
+      if r.1 != negate then .advance r.2 else .mismatch
     else if a = 92 then
       match p' with
       | x :: p'' => if x = c then .advance p'' else .mismatch
       | [] => if a = c then .advance p' else .mismatch
     else if a = c then .advance p' else .mismatch
 
-/-- The `while c_idx < channel.len()` loop followed by the trailing-`*` loop.
-    `star = some (ps, ss)`: `ps` is the pattern after the last `*` seen, `ss` the channel suffix
+/-- The `while t_idx < text.len()` loop followed by the trailing-`*` loop.
+    `star = some (ps, ss)`: `ps` is the pattern after the last `*` seen, `ss` the text suffix
     at `star_match_idx`.  The first argument is fuel (see `globFuel`; never exhausted:
-    `Ferrous.PubSub.globLoop_spec`). -/
+    `Ferrous.PubSub.globLoop_fuel_irrelevant`). -/
 def globLoop : Nat → Bytes → Bytes → Option (Bytes × Bytes) → Bool
   | 0, _, _, _ => false
   | _+1, p, [], _ => (p.dropWhile (· == 42)).isEmpty
@@ -75,38 +107,95 @@ def someSuffix (g : Bytes → Bool) : Bytes → Bool
   | [] => g []
   | c :: s => g (c :: s) || someSuffix g s
 
-/-- Declarative meaning of a glob pattern, by recursion on the pattern:
-    `*` any (possibly empty) run of bytes, `?` exactly one byte, `\x` the byte `x`,
-    a final `\` and every other byte itself. -/
-def glob : Bytes → Bytes → Bool
-  | [], s => s.isEmpty
-  | a :: p, s =>
-    if a = 42 then someSuffix (glob p) s
-    else if a = 63 then
-      match s with
-      | [] => false
-      | _ :: t => glob p t
+/-- A member of a character class. -/
+inductive Item where
+  | one (x : Nat)
+  /-- `a-b`: the bounds in either order -/
+  | range (a b : Nat)
+  deriving DecidableEq, Repr
+
+def Item.has (c : Nat) : Item → Bool
+  | .one x => x == c
+  | .range a b => decide (min a b ≤ c) && decide (c ≤ max a b)
+
+/-- Reading a class body (what follows `[` or `[^`): its members and the pattern after it.
+    Redis's rules: `\x` is the member `x` (also `\]`, `\-`); a final `\` is itself; `]` closes
+    the class (also as its first byte: `[]` is empty); `a-b` is a range whatever `b` is (`a-]`
+    is a range, the class goes on behind it); without `]` the class runs to the end of the pattern. -/
+def classParse : Bytes → List Item × Bytes
+  | [] => ([], [])
+  | a :: q =>
+    if a = 92 then
+      match q with
+      | x :: q' => (.one x :: (classParse q').1, (classParse q').2)
+      | [] => ([.one 92], [])
+    else if a = 93 then ([], q)
+    else if isRange q then
+      match q with
+      | _ :: b :: q' => (.range a b :: (classParse q').1, (classParse q').2)
+      | _ => ([], [])               -- not reached
+    else (.one a :: (classParse q).1, (classParse q).2)
+
+/-- A pattern element that stands for exactly one byte of the text. -/
+inductive Tok where
+  /-- `?` -/
+  | any
+  /-- a byte standing for itself, `\x`, a final `\` -/
+  | lit (x : Nat)
+  /-- `[…]` / `[^…]` -/
+  | cls (neg : Bool) (items : List Item)
+  deriving DecidableEq, Repr
+
+/-- Does the element accept the byte `c`?  A class accepts `c` iff membership differs from
+    negation: `[^` alone accepts every byte, `[` and `[]` none. -/
+def Tok.takes (c : Nat) : Tok → Bool
+  | .any => true
+  | .lit x => x == c
+  | .cls neg items => items.any (·.has c) != neg
+
+/-- First element of a pattern and the rest. -/
+inductive Head where
+  | done
+  | star (p' : Bytes)
+  | tok (t : Tok) (p' : Bytes)
+
+def head : Bytes → Head
+  | [] => .done
+  | a :: p =>
+    if a = 42 then .star p
+    else if a = 63 then .tok .any p
+    else if a = 91 then
+      let neg := p.head? == some 94
+      let r := classParse (if neg then p.tail else p)
+      .tok (.cls neg r.1) r.2
     else if a = 92 then
       match p with
-      | x :: p' =>
-        match s with
-        | [] => false
-        | c :: t => x = c && glob p' t
-      | [] => s == [92]
-    else
+      | x :: p' => .tok (.lit x) p'
+      | [] => .tok (.lit 92) []
+    else .tok (.lit a) p
+
+/-- Declarative meaning of a glob pattern, element by element (the first argument bounds the
+    number of elements; `glob` supplies enough): `*` any (possibly empty) run of bytes, every
+    other element exactly one byte it accepts. -/
+def globF : Nat → Bytes → Bytes → Bool
+  | 0, _, _ => false
+  | n+1, p, s =>
+    match head p with
+    | .done => s.isEmpty
+    | .star p' => someSuffix (globF n p') s
+    | .tok t p' =>
       match s with
       | [] => false
-      | c :: t => a = c && glob p t
+      | c :: s' => t.takes c && globF n p' s'
+
+def glob (p s : Bytes) : Bool := globF (p.length + 1) p s
 
 /-- The same meaning as a relation (no computation): the least relation closed under these rules. -/
 inductive Glob : Bytes → Bytes → Prop
-  | nil : Glob [] []
-  | starSkip {p s} : Glob p s → Glob (42 :: p) s
-  | starEat {p s} (c) : Glob (42 :: p) s → Glob (42 :: p) (c :: s)
-  | any {p s} (c) : Glob p s → Glob (63 :: p) (c :: s)
-  | esc {p s} (c) : Glob p s → Glob (92 :: c :: p) (c :: s)
-  | lastBackslash : Glob [92] [92]
-  | lit {p s} (a) : a ≠ 42 → a ≠ 63 → a ≠ 92 → Glob p s → Glob (a :: p) (a :: s)
+  | done {p} : head p = .done → Glob p []
+  | starSkip {p p' s} : head p = .star p' → Glob p' s → Glob p s
+  | starEat {p p' s} (c) : head p = .star p' → Glob p s → Glob p (c :: s)
+  | tok {p p' s t} (c) : head p = .tok t p' → t.takes c = true → Glob p' s → Glob p (c :: s)
 
 end Spec
 
